@@ -1,17 +1,16 @@
 CONSTANTS
-  Prelude <- PreDecls
+  Prelude <- PreBody
   Fresh <- Fresh2
   PreScopes = {"_SB_"}
   MaxProd = 2  MaxTables = 1  MaxDepth = 1
-  Decls = {"Alias", "External", "CreateField", "Name"}
-  Forms = {"abs"}
-  Values = {"pkgref", "pkgmeth", "bufname", "bufcall"}
-  Stmts = {}  MaxStmts = 0
+  Decls = {}
+  Forms = {}
+  Values = {}
+  Stmts = {"call", "calloplast", "store"}  MaxStmts = 2
   Devs = {"IndexFieldNamed", "AliasKeepsSourceName", "ExternalIsObject", "CreateFieldNotNamed", "PackageMethodRefInvoked", "VarPackageCountByte", "MatchOperatorBytes", "LoadTableSevenOperands", "IfBodyFlattened", "RelPathInTerm", "ValueNamesFromFinalPlace", "EmptyBufferInDeferred"}
   Excluded = {"D1", "D1b", "D2", "D2c", "D3", "D5", "D6", "D7", "D9", "IndexFieldNamed", "AliasKeepsSourceName", "ExternalIsObject", "CreateFieldNotNamed", "PackageMethodRefInvoked", "VarPackageCountByte", "MatchOperatorBytes", "LoadTableSevenOperands", "IfBodyFlattened", "RelPathInTerm", "ValueNamesFromFinalPlace", "EmptyBufferInDeferred", "InvisibleCallee", "MethodAsRef", "HiddenNameInDeferred", "BankFieldUnitInDeferred"}
-  Emit = TRUE  Bug = ""
+  Emit = FALSE  Bug = "NoParentSiblings"
 INIT Init
 NEXT Next
-INVARIANT LoaderSoundX
-INVARIANT EmitProg
+INVARIANT BodyRefines
 CHECK_DEADLOCK FALSE
